@@ -536,8 +536,12 @@ func (ex *Exec) callBuiltin(caller *frame, callpos token.Pos, fn *ssa.Builtin, a
 		n := len(dst)
 		if n+len(src) <= cap(dst) {
 			out := dst[:n+len(src)]
+			tmp := make([]value, len(src))
 			for i, v := range src {
-				out[n+i] = copyVal(v)
+				tmp[i] = copyVal(v)
+			}
+			for i := range tmp {
+				storeInPlace(&out[n+i], tmp[i])
 			}
 			return out
 		}
@@ -583,7 +587,9 @@ func (ex *Exec) callBuiltin(caller *frame, callpos token.Pos, fn *ssa.Builtin, a
 		for i := 0; i < n; i++ {
 			tmp[i] = copyVal(src[i])
 		}
-		copy(dst, tmp)
+		for i := 0; i < n; i++ {
+			storeInPlace(&dst[i], tmp[i])
+		}
 		return c.Const(64, uint64(n))
 
 	case "close":
